@@ -229,7 +229,16 @@ def cmd_check_c20(args):
     workers = int(args.workers or os.environ.get("VERIF_WORKERS") or min(16, os.cpu_count() or 8))
     n_var = int(args.runs or cfg["variants"])
     t0 = time.time()
-    variants = [0] + [1 + (O.derive(base_seed, "c20variant", i) % 100000) for i in range(n_var - 1)]
+    # variant 0 (mirror of the demo) + seeded variants chosen greedily so that every transformation kind is covered
+    cand = [1 + (O.derive(base_seed, "c20variant", i) % 100000) for i in range(max(200, n_var * 4))]
+    variants, covered = [0], set()
+    for v in cand:
+        if len(variants) >= n_var:
+            break
+        tr = set(confgen.make_variant(v).get("transformations", []))
+        if tr - covered or len(variants) >= (n_var + 1) // 2:
+            variants.append(v)
+            covered |= tr
     if args.variant is not None:
         variants = [args.variant]
     tmp = tempfile.mkdtemp(prefix="spil-c20-", dir=scratch_base())
